@@ -30,6 +30,12 @@ func c09Gen(g *G) {
 	g.Emit("c09.run vo,vl g0+1;w2;c(r1/2001,r0/2001);w4;c(a1z,a0)", "hinted-call-resent")
 	g.Emit("c09.run vl511,vl1023,vl510,o,b g0+1+2+3+4;w5;a0z;a1z;c(a2z,a3z);a4", "packed-size-multiple-of-4096")
 	g.Emit("c09.run vl1535,vl512 g0+1;w2;a1z;a0z", "packed-size-multiple-of-4096")
+	// requests in flight when the server closes the connection: the answers arrive on the new connection; a call
+	// that declares a vector result is answered with an rpc_error (plain, in a container, packed)
+	g.Emit("c09.run b,vl,o g0+1+2;w3;close;a1;a0;a2", "in-flight-across-reconnect")
+	g.Emit("c09.run o,o g0;w1;close;g1;w2;c(a1,a0)", "in-flight-across-reconnect")
+	g.Emit("c09.run vl,vo,b,o g0+1+2+3;w4;E0;c(E1,E2);a3", "error-for-a-hinted-call")
+	g.Emit("c09.run vl,vl g0+1;w2;c(a1z,E0)", "error-for-a-hinted-call")
 	g.Emit("c09.run o,o,o,o g0;w1;fk:1;a0;j;g1+2+3;w4;a1;a2;a3", "fault-ack-write")
 	g.Emit("c09.run o,b,vl fk:2;n77;g0;w1;a0;j;g1+2;w3;c(a2z,a1)", "fault-ack-write")
 	n := g.N(60, 1500)
